@@ -128,4 +128,31 @@ PROPS = {
         "level_note": "Trusted base: the 20-line brute-force validator in harness/src/props/c17.rs and rpki ResourceSet containment.",
         "max_workers": 16,
     },
+    "C10": {
+        "level": "exploration",
+        "cases": {"quick": 3200, "thorough": 60000},
+        "rule": "cases = generated sequences of 5-60 (thorough: up to 120) publication-server operations for 2-5 publishers whose handles include string prefixes (ca, ca2), path prefixes (a, a/b) "
+        "and case variants (ca, Ca): deltas of 0-8 elements mixing publish/update/withdraw with correct, stale and wrong hashes, URIs under the own base, another publisher's base, nobody's base, "
+        "outside the repository and with upper-case scheme/host; list queries, RRDP updates (with and without a minimal delta interval so content stays staged), session resets, publisher removal and re-creation, "
+        "restarts on disk; distinct by hash of the case JSON; non-trivial iff some delta of at least three elements was decided by a non-first element, or a delta addressed a URI outside the publisher's own base",
+        "floors": {"__nontrivial__": 0.60, "delta_accepted": 0.80, "delta_refused": 0.80, "verdict_decided_by_non_first_element": 0.30, "publisher_removed": 0.20, "rrdp_update": 0.50},
+        "assumptions": ["deltas are submitted through RepositoryManager::rfc8181_message (the path behind CMS validation; the signed path is C12's)", "scheme and host of rsync URIs are compared case-insensitively, the rest of the URI exactly", "the publisher 'ta' publishes at the repository root by design and is only a bystander"],
+        "technique": "model-based property testing: every generated request is applied to the publication server and to a reference model of RFC 8181 (publisher -> uri -> bytes); verdict (iff), list replies, publisher details and the RRDP snapshot are compared after every request for every publisher",
+        "level_text": "Exploration by generated request sequences against a reference model; accepted iff every element is applicable inside the publisher's jail, accepted deltas applied completely, refused deltas change nothing, other publishers' content never changes, removal withdraws exactly the publisher's objects, no URI has two owners. Sampling, not proof.",
+        "level_note": "Trusted base: the 100-line reference model in harness/src/enginep.rs and rpki's RRDP parser.",
+    },
+    "C11": {
+        "level": "fault_enumeration",
+        "cases": {"quick": 1600, "thorough": 30000},
+        "rule": "cases = generated (retention configuration, publication history) pairs on disk storage: accepted deltas of several publishers, RRDP updates, clock advances (so truncation by number, age and size trigger), "
+        "session resets, publisher removal/re-creation, restarts, repository re-writes, and RRDP updates whose sequence of file-system mutations (delta and snapshot files, notification temp file, notification rename, "
+        "rsync temp dir, the two rsync renames, clean-up removals/archiving) is cut at a generated point k in 1..15, either as a single failing write or as a crash (point k and all later points fail); "
+        "a simulated client remembers the object map of every serial it has ever seen; distinct by hash of the case JSON; non-trivial iff at least six serials were observed with at least one truncation, "
+        "or a write was interrupted and followed by at least two more writes",
+        "floors": {"__nontrivial__": 0.30, "write_interrupted": 0.50, "deltas_truncated": 0.20, "session_reset": 0.20},
+        "assumptions": ["retention settings are generated with 1 <= min_nr <= max_nr and min_seconds <= max_seconds (krill does not validate them; other combinations are configuration nonsense)", "retention bound as documented in config.rs: the first min_nr deltas and every delta younger than min_seconds are always kept; max_nr and max_seconds apply to the rest", "cut points are sampled per write (k generated), not enumerated exhaustively, in both tiers"],
+        "technique": "model-based property testing with fault injection at generated cut points (hook H5): a simulated RRDP client with memory of every serial applies the offered delta chains strictly and compares with the snapshot and the reference model; rsync tree compared with the snapshot; after an interrupted write the old notification must stay consistent and later writes must succeed",
+        "level_text": "Generated histories plus sampled cut points over the file-system mutation sequence of an update. For every observation: notification/snapshot/delta hashes, snapshot = publication state, every remembered serial reaches the snapshot through the offered chain, serial +1 per update, session only changes by reset, retention bounds, rsync = snapshot, recovery after interruption. Not exhaustive over cut points.",
+        "level_note": "Trusted base: rpki RRDP parser, the reference model of Engine P, the fault hook (fails a mutation before it is performed).",
+    },
 }
